@@ -128,11 +128,20 @@ def sami_selection(ctx, report):
 def dfxp_fallback(ctx, report):
     from . import dfxp_read_fold
     dfxp_read_fold.run(ctx, report)
+    by = "R-DOC-LANGS on the folded documents of the three DFXP writers under every value of the force option (markup_writer_fold)"
+    report.structural_section("DFXPWriter force (shape)", by, force_shape, ctx, report)
+    report.structural_section("LegacyDFXPWriter language choice", by, legacy_force, ctx, report)
+
+
+def force_shape(ctx, report):
     wr = ctx.index.get_function("pycaption/dfxp/base.py", "DFXPWriter.write")
     tests = [n for n in walk_no_nested(wr.node) if isinstance(n, ast.If) and src(n.test) == "force in langs"]
     ok = len(tests) == 1 and any(isinstance(s, ast.Assign) and src(s) == "langs = [force]" for s in tests[0].body)
-    report.check(ok, "R-GUARD", wr, "force selects a language only when the set has it; otherwise all languages are written",
-                 [short(t) for t in tests], "3")
+    report.recognise(ok, "R-GUARD", wr, "force selects a language only when the set has it; otherwise all languages are written",
+                     [short(t) for t in tests], "3")
+
+
+def legacy_force(ctx, report):
     lg = ctx.index.get_function("pycaption/dfxp/extras.py", "LegacyDFXPWriter._force_language")
     report.covered(lg)
     from ..core.constfold import Folder, Stub, FoldRaise
